@@ -174,6 +174,7 @@ pub fn gen_bench(rng: &mut Rng, o: &BenchOpts) -> Case {
             on,
             panic_at: None,
             late_mailbox: false,
+            reply_take: None,
         });
     }
     if o.submodels && n >= 2 {
